@@ -286,3 +286,9 @@ package bridgesync
 //@   ensures[failed-decode-adds-nothing] result != nil ==> len(b.Events) == old(len(b.Events))
 //@   ensures[one-event-per-log] result == nil ==> len(b.Events) == old(len(b.Events)) + 1 && forall(k, 0, old(len(b.Events)), b.Events[k] == old(b.Events[k]))
 //@   ensures[the-claim-is-the-decoded-event-at-the-logs-position] result == nil ==> typeIs(b.Events[len(b.Events) - 1], Event) && unbox(b.Events[len(b.Events) - 1], Event).Claim != nil && unbox(b.Events[len(b.Events) - 1], Event).Bridge == nil && unbox(b.Events[len(b.Events) - 1], Event).Claim.BlockNum == b.Num && unbox(b.Events[len(b.Events) - 1], Event).Claim.BlockPos == l.Index && unbox(b.Events[len(b.Events) - 1], Event).Claim.GlobalIndex != nil && bigval(unbox(b.Events[len(b.Events) - 1], Event).Claim.GlobalIndex) == parsedClaimV1.Index && unbox(b.Events[len(b.Events) - 1], Event).Claim.OriginNetwork == parsedClaimV1.OriginNetwork && unbox(b.Events[len(b.Events) - 1], Event).Claim.OriginAddress == parsedClaimV1.OriginAddress && unbox(b.Events[len(b.Events) - 1], Event).Claim.DestinationAddress == parsedClaimV1.DestinationAddress && unbox(b.Events[len(b.Events) - 1], Event).Claim.Amount == parsedClaimV1.Amount
+
+// the exit-tree proof served by the syncer's entry point (C08, C12; fail-stop behaviour: schema above)
+//@ func (s *BridgeSync) GetProof
+//@   props C08 C12
+//@   requires s != nil && s.processor != nil && s.processor.exitTree != nil && s.processor.exitTree.Tree != nil && len(s.processor.exitTree.Tree.zeroHashes) == 33
+//@   ensures[proof-of-that-deposit-to-that-root] (!old(s.processor.halted) && result1 == nil && forall(h, 1, 33, rhtHas(s.processor.exitTree.Tree)[desc(rhtL(s.processor.exitTree.Tree), rhtR(s.processor.exitTree.Tree), localExitRoot, depositCount, h)])) ==> foldUp(desc(rhtL(s.processor.exitTree.Tree), rhtR(s.processor.exitTree.Tree), localExitRoot, depositCount, 0), result0, depositCount, 32) == localExitRoot
